@@ -597,8 +597,17 @@ func c10PreEncrypted(t *testing.T, rep *vh.Report) {
 	if scratch == "" {
 		return
 	}
-	root := filepath.Join(scratch, "preenc")
-	dir := filepath.Join(root, "preenc_2s")
+	// three assets: every track pre-encrypted; the audio track only (clear video); the video track only
+	for _, va := range []struct {
+		name string
+		enc  map[string]bool
+	}{{"preenc_2s", map[string]bool{"V300": true, "A48": true}}, {"preenc_audio_2s", map[string]bool{"A48": true}}, {"preenc_video_2s", map[string]bool{"V300": true}}} {
+		c10PreEncryptedAsset(t, rep, filepath.Join(scratch, va.name+"_root"), va.name, va.enc)
+	}
+}
+
+func c10PreEncryptedAsset(t *testing.T, rep *vh.Report, root, name string, enc map[string]bool) {
+	dir := filepath.Join(root, name)
 	src, err := vServer(vBundledRoot)
 	if err != nil {
 		t.Fatalf("server: %v", err)
@@ -607,13 +616,17 @@ func c10PreEncrypted(t *testing.T, rep *vh.Report) {
 	for _, id := range []string{"V300", "A48"} {
 		r := a.Reps[id]
 		_ = os.MkdirAll(filepath.Join(dir, id), 0o755)
-		ir := vGet(src, "/livesim2/eccp_cenc/testpic_2s/"+r.InitURI+"?nowMS=100000")
+		mode := "eccp_cenc/"
+		if !enc[id] {
+			mode = ""
+		}
+		ir := vGet(src, "/livesim2/"+mode+"testpic_2s/"+r.InitURI+"?nowMS=100000")
 		if ir.Code != 200 {
 			t.Fatalf("cannot fetch encrypted init: %d", ir.Code)
 		}
 		_ = os.WriteFile(filepath.Join(dir, id, "init.mp4"), ir.Body, 0o644)
 		for n := 0; n < 4; n++ {
-			sr := vGet(src, fmt.Sprintf("/livesim2/eccp_cenc/testpic_2s/%s/%d.m4s?nowMS=%d", id, n, (n+1)*2000+100))
+			sr := vGet(src, fmt.Sprintf("/livesim2/%stestpic_2s/%s/%d.m4s?nowMS=%d", mode, id, n, (n+1)*2000+100))
 			if sr.Code != 200 {
 				t.Fatalf("cannot fetch encrypted segment: %d", sr.Code)
 			}
@@ -630,25 +643,29 @@ func c10PreEncrypted(t *testing.T, rep *vh.Report) {
 	if dc, err := drm.ReadDrmConfig(c10DrmCfg); err == nil {
 		srv.Cfg.DrmCfg = dc
 	}
-	as, ok := srv.assetMgr.assets["preenc_2s"]
-	if !ok || !as.refRep.PreEncrypted {
-		rep.Note("pre-encrypted asset not recognised as such (loaded=%v)", ok)
+	as, ok := srv.assetMgr.assets[name]
+	if !ok || as.refRep.PreEncrypted != enc["V300"] {
+		rep.Violate("C10.d", "pre-encrypted-not-recognised:"+name, fmt.Sprintf("asset %s (pre-encrypted tracks %v): loaded=%v", name, enc, ok), map[string]any{"asset": name})
 		return
 	}
+	all := enc["V300"] && enc["A48"]
 	for _, d := range []string{"eccp_cenc", "eccp_cbcs", "drm_EZDRM-1-key-cbcs-test"} {
-		for _, ep := range []string{"Manifest.mpd", "V300/init.mp4", "V300/40.m4s", "A48/40.m4s"} {
-			u := fmt.Sprintf("/livesim2/%s/preenc_2s/%s?nowMS=100000", d, ep)
+		for _, ep := range []string{"Manifest.mpd", "V300/init.mp4", "V300/40.m4s", "A48/init.mp4", "A48/40.m4s"} {
+			if !all && !enc[strings.SplitN(ep, "/", 2)[0]] {
+				continue // a clear track next to a pre-encrypted one, and the MPD of such an asset: not judged
+			}
+			u := fmt.Sprintf("/livesim2/%s/%s/%s?nowMS=100000", d, name, ep)
 			r := vGet(srv, u)
 			rep.AddExecs(1)
 			rep.AddStates(1)
 			rep.Hit("C10.d")
-			clear := vGet(srv, fmt.Sprintf("/livesim2/preenc_2s/%s?nowMS=100000", ep))
+			clear := vGet(srv, fmt.Sprintf("/livesim2/%s/%s?nowMS=100000", name, ep))
 			switch {
 			case r.vCrashed():
 				site, val := vPanicSite(srv.livesimHandlerFunc, "GET", u, nil)
 				rep.Violate("C10.d", "panic:"+site, fmt.Sprintf("%s: %s", u, val), map[string]any{"url": u})
 			case r.Code == 200 && !bytes.Equal(r.Body, clear.Body):
-				rep.Violate("C10.d", "pre-encrypted-served-differently:"+strings.SplitN(ep, "/", 2)[0], fmt.Sprintf("%s: 200 with a body that differs from the request without DRM (encrypted twice?)", u), map[string]any{"url": u})
+				rep.Violate("C10.d", "pre-encrypted-served-differently:"+strings.SplitN(ep, "/", 2)[0]+vIf(all, "", ":"+name), fmt.Sprintf("%s: 200 with a body that differs from the request without DRM (encrypted twice?)", u), map[string]any{"url": u})
 			case r.Code == 200 && strings.HasSuffix(ep, ".mpd"):
 				rep.Violate("C10.d", "pre-encrypted-mpd-not-refused", fmt.Sprintf("%s: DRM MPD for a pre-encrypted asset answered 200", u), map[string]any{"url": u})
 			}
